@@ -83,8 +83,12 @@ func (s *Sim) PrimaryValid(st *Step) (string, bool) {
 	a := st.Act
 	switch a.Kind {
 	case "login":
-		if ac := s.AcctByPID(a.PID); ac != nil && ac.Pw != "" && PwEquiv(a.Secret, ac.Pw) {
-			return ac.PID, true
+		if ac := s.AcctByPID(a.PID); ac != nil && ac.Pw != "" && len(ac.Pw) <= 72 {
+			// (a password of more than 72 bytes is one the shipped hasher must refuse to hash: an
+			// account can never have one, and nothing typed is a valid credential against it)
+			if (s.Cfg.CustomHasher && a.Secret == ac.Pw) || (!s.Cfg.CustomHasher && PwEquiv(a.Secret, ac.Pw)) {
+				return ac.PID, true
+			}
 		}
 	case "otp_login":
 		if ac := s.AcctByPID(a.PID); ac != nil {
